@@ -33,7 +33,7 @@ ASSUMPTIONS = [
 ]
 CONFIG = {
     'shards': {'quick': 8, 'thorough': 16},
-    'min_nontrivial': {'quick': 400, 'thorough': 4000},
+    'min_nontrivial': {'quick': 1200, 'thorough': 6000},
 }
 ANCHORS = [
     'pgradd.ThermoChem.group_data:ThermochemGroupAdditive.__init__',
@@ -264,9 +264,9 @@ def check_case(ctx, case):
 def run_shard(ctx):
     i = 0
     specs = list(libs.UQ_LIBS) + [['synthetic', 'u%d_%d' % (ctx.seed, k)]
-                                  for k in range(8 if ctx.tier == 'quick'
+                                  for k in range(24 if ctx.tier == 'quick'
                                                  else 60)]
-    per = 40 if ctx.tier == 'quick' else 500
+    per = 120 if ctx.tier == 'quick' else 800
     counts = [1, -1, 2, 3, 0.217, -0.5, 1.5, 0.392, 7, -2]
     for spec in specs:
         lib = get_lib(spec)
